@@ -602,7 +602,13 @@ func (c *FCtx) runAts(e *Env, st *State, where string, extra map[string]TV) {
 				st.assume(g)
 			case "assume":
 				c.noteAssumed(fmt.Sprintf("%s: assume at %s: %s", c.Name, where, cl.Text))
+				base := st.pc.list()
 				st.assume(se.evalBool(cl.Expr))
+				// vacuity guard: the assumption must not contradict what is known on this path
+				if !st.dead {
+					c.Obls = append(c.Obls, &Obligation{Name: fmt.Sprintf("%s:cover(assume %s @ %s)", c.Name, cl.Label, where), Kind: "cover",
+						Goal: TTrue, Hyps: st.pc.list(), CoverBase: base, Cover: true, Func: c.Name, Text: cl.Text})
+				}
 			case "use":
 				c.applyUse(se, cl, st)
 			}
